@@ -1269,16 +1269,28 @@ func genAuto(sc *Scenario, r *Rng) {
 	prevLatest := sc.Start
 	for len(sc.Rotation) < 12 {
 		ci := &cropTable[r.Intn(len(cropTable))]
+		_, known := sc.AutoRows[ci.Code]
 		a := row(ci)
+		if !known && len(sc.Rotation) > 1 && r.Bool(0.3) {
+			// a (short) window that opens right after the latest harvest of the preceding crop: the forced sowing at the window
+			// end then falls within a few days of that harvest
+			a.Sow1 = mini(prevLatest.AddDays(1+r.Range(0, 2)).DOY(), 360)
+			a.Sow2 = mini(a.Sow1+r.Range(0, 4), 364)
+		}
 		// smallest sowing year whose window opens after the latest harvest of the preceding crop
 		y := prevLatest.Y
-		for dateFromDDMM(y, a.Sow1).Zeit() <= prevLatest.Zeit()+6 {
+		gap := pickI(r, []int{0, 0, 1, 3, 6}) // the window may open on the very day after the latest harvest
+		for dateFromDDMM(y, a.Sow1).Zeit() <= prevLatest.Zeit()+gap {
 			y++
 		}
 		open, closeD := dateFromDDMM(y, a.Sow1), dateFromDDMM(y, a.Sow2)
 		hy := y
 		if ci.Winter {
 			hy = y + 1
+		}
+		// the latest harvest date of the table (day and month) in the harvest year of the rotation entry: late enough to grow
+		for dateFromDDMM(hy, a.Har2).Zeit() < closeD.Zeit()+45 {
+			hy++
 		}
 		latest := dateFromDDMM(hy, a.Har2)
 		sow := open.AddDays(r.Range(0, maxi(0, closeD.Zeit()-open.Zeit())))
@@ -1287,15 +1299,10 @@ func genAuto(sc *Scenario, r *Rng) {
 		if hlo.Zeit() < closeD.Zeit()+40 {
 			hlo = closeD.AddDays(40)
 		}
-		harv := hlo
-		if latest.Zeit() > hlo.Zeit() {
-			harv = hlo.AddDays(r.Range(0, latest.Zeit()-hlo.Zeit()))
-		} else {
-			latest = hlo
-			dd, mm := latest.D, latest.M
-			_ = dd
-			_ = mm
+		if hlo.Zeit() > latest.Zeit() {
+			hlo = latest
 		}
+		harv := hlo.AddDays(r.Range(0, latest.Zeit()-hlo.Zeit()))
 		e := RotEntry{Crop: ci.Code, Sow: sow, Harvest: harv, Rex: pickI(r, []int{0, 100, 80, 50}), WinOpen: open, WinClose: closeD, LatestHarv: latest}
 		if a.OrgAmount > 0 && r.Bool(0.5) {
 			e.AutOrg = 1
